@@ -28,10 +28,72 @@ func (c09) Assumptions() []string {
 	return []string{"error identity is Go interface equality (==) between the returned error and the injected value", "input documents are sampled"}
 }
 func (c09) Required(tier string) []string {
-	return []string{"H-error", "H-nested", "error-is-a-library-error-value", "error-of-uncomparable-type", "error-is-a-typed-nil-pointer", "error-wraps-a-library-error", "struct-handler", "func-adapter-handler", "error-at-scalar-member", "error-at-string-member", "error-at-container-member", "error-offset-near-maxint", "error-in-nested-traversal", "traversal-with-a-buffer-that-saw-aborted-calls"}
+	return []string{"H-error", "H-nested", "error-is-a-library-error-value", "error-of-uncomparable-type", "error-is-a-typed-nil-pointer", "error-wraps-a-library-error", "struct-handler", "func-adapter-handler", "error-at-scalar-member", "error-at-string-member", "error-at-container-member", "error-offset-near-maxint", "error-in-nested-traversal", "traversal-with-a-buffer-that-saw-aborted-calls", "error-raised-thousands-of-re-entrant-levels-down", "error-replaced-on-the-way-up"}
 }
 
+// deepErrHandler descends a deeply nested document with one traversal per level, every level
+// re-entering the library with the SAME Buffer (or none). At level injectAt it returns error e1;
+// at level replaceAt (above it, or -1) it swallows whatever came up from below and returns its own
+// error e2 instead - both perfectly legal handler behaviour. Calls made after the first error are counted.
+type deepErrHandler struct {
+	buf                 *rjson.Buffer
+	depth               int
+	injectAt, replaceAt int
+	e1, e2              error
+	raised              bool // e1 was returned
+	replaced            bool // e2 was returned in place of an error that came up from below
+	after               int
+}
+
+func (h *deepErrHandler) member(data []byte) (int, error) {
+	if h.raised || h.replaced {
+		h.after++
+	}
+	h.depth++
+	defer func() { h.depth-- }()
+	if h.depth == h.injectAt {
+		h.raised = true
+		return 0, h.e1
+	}
+	if len(data) == 0 {
+		return 0, nil
+	}
+	var p int
+	var err error
+	switch data[0] {
+	case '[':
+		p, err = rjson.HandleArrayValues(data, h, h.buf)
+	case '{':
+		p, err = rjson.HandleObjectValues(data, h, h.buf)
+	default:
+		return 0, nil
+	}
+	if err != nil && h.depth == h.replaceAt {
+		// whatever failed below - the handler's own e1 or the library refusing to go on - this level
+		// reports its own error, and that is the one the traversals above must hand up
+		h.replaced = true
+		h.after = 0
+		return p, h.e2
+	}
+	return p, err
+}
+func (h *deepErrHandler) HandleArrayValue(d []byte) (int, error)     { return h.member(d) }
+func (h *deepErrHandler) HandleObjectValue(_, d []byte) (int, error) { return h.member(d) }
+
 func (c09) Gen(r *Rand, sc *Scenario, tier string) {
+	if r.Chance(1, 60) {
+		// one traversal per nesting level, thousands of levels, all through one Buffer; the error is raised
+		// far down and (sometimes) replaced by another one on the way up
+		n := []int{50, 2000, 9999, 10001, 10500, 12000}[r.Intn(6)]
+		sc.Docs = []Doc{deepDoc([]int{0, 1, 2, 3}[r.Intn(4)], n, "1")}
+		inj := r.Range(n/2, n)
+		rep := -1
+		if r.Chance(2, 3) {
+			rep = r.Range(1, inj-1)
+		}
+		sc.Tasks = [][]Op{{{Kind: "deep-descent", Doc: 0, A: r.Intn(2), B: inj, C: rep, Tape: []int{r.Intn(nErrKinds), r.Intn(nErrKinds)}}}}
+		return
+	}
 	obj := r.Chance(1, 2)
 	n := memberCount(r)
 	if n == 0 {
@@ -88,6 +150,54 @@ func (c09) Exec(sc *Scenario, st *Stats) *Violation {
 	shared := &rjson.Buffer{} // one Buffer for all traversals of the scenario that ask for one: it has seen aborted calls before
 	for oi, op := range sc.Tasks[0] {
 		doc := sc.Docs[op.Doc].Bytes()
+		if op.Kind == "deep-descent" {
+			errs := allSimErrors()
+			t := NewTape(op.Tape)
+			h := &deepErrHandler{injectAt: op.B, replaceAt: op.C, e1: errs[t.Next()%len(errs)], e2: errs[t.Next()%len(errs)]}
+			if op.A == 1 {
+				h.buf = shared
+			}
+			var err error
+			panicked := ""
+			func() {
+				defer func() {
+					if r := recover(); r != nil {
+						panicked = panicString(r)
+					}
+				}()
+				if len(doc) > 0 && doc[0] == '{' {
+					_, err = rjson.HandleObjectValues(doc, h, h.buf)
+				} else {
+					_, err = rjson.HandleArrayValues(doc, h, h.buf)
+				}
+			}()
+			st.fault("H-error")
+			st.probe("error-raised-thousands-of-re-entrant-levels-down")
+			st.evi("deep", op.B)
+			want := h.e1
+			if h.replaced {
+				want = h.e2
+				st.probe("error-replaced-on-the-way-up")
+			}
+			viol := func(class, detail string) *Violation {
+				return &Violation{Class: class, Task: 0, Op: oi, Sig: "C09/" + class + "/deep-descent",
+					Detail: fmt.Sprintf("one traversal per level on %q (inject at level %d, replace at level %d, shared Buffer=%v): %s", clip(string(doc), 40), op.B, op.C, op.A == 1, detail)}
+			}
+			switch {
+			case panicked != "":
+				return viol("panic-after-error", panicked)
+			case !h.raised && !h.replaced:
+				// the handler never returned an error of its own (the document is shallower than the injection
+				// level, or the library stopped the descent first and nobody replaced its error)
+			case err == nil:
+				return viol("swallowed", "the handler returned an error but the outermost traversal reported success")
+			case !sameErr(err, want):
+				return viol("identity", fmt.Sprintf("the outermost traversal returned %v, not the error its handler returned (%v)", err, want))
+			case h.after != 0:
+				return viol("calls-after-error", fmt.Sprintf("%d handler calls were made after the error was raised", h.after))
+			}
+			continue
+		}
 		e := newHEnv(st, NewTape(op.Tape))
 		e.structH = op.B%2 == 1
 		if op.A == 1 {
